@@ -25,9 +25,10 @@ func init() {
 			"Added after blind round 6: Manager.GetNodeInfo's read-only result resolves to engine.IsReadOnly() on every path (false only without engine or configuration). " +
 			"Added after blind round 7: the service hands the registry the engine itself (EngineFacade.BeginTransaction is the only place that downgrades a read-write request on a replica). " +
 			"Added after blind round 8: every comparison with a replication-mode constant is made on the stored string itself, never on a transformed value (the interpreters of the mode must agree). " +
-			"Added after blind round 9: a mutating handler of the service reports success only behind the embedded mutating call of its row — the read-only refusal lives there.",
+			"Added after blind round 9: a mutating handler of the service reports success only behind the embedded mutating call of its row — the read-only refusal lives there. " +
+			"Added after blind round 10: startReplica copies ManagerConfig.PrimaryAddr — the address GetNodeInfo reports — into the replica's connection configuration on every path to NewReplica.",
 		NotDecided: "that data stays byte-identical (follows from the guard dominating every effect); interleavings of client calls with replication apply; the window between replica.Start() and SetReadOnly(true) (reported as info).",
-		Rules:      []func(*Ctx, *Reporter){ruleC16Mutators, ruleC16Who, ruleC16Tx, ruleC16Applier, ruleC16Start, ruleC16NodeInfo, ruleReflectiveDoors, ruleReadOnlyOnlyRaised, ruleTxLockWriters, ruleNodeInfoReadOnlyFromEngine, ruleServiceBeginsThroughEngine, ruleModeComparedVerbatim, ruleServiceSuccessOnlyAfterEngine},
+		Rules:      []func(*Ctx, *Reporter){ruleC16Mutators, ruleC16Who, ruleC16Tx, ruleC16Applier, ruleC16Start, ruleC16NodeInfo, ruleReflectiveDoors, ruleReadOnlyOnlyRaised, ruleTxLockWriters, ruleNodeInfoReadOnlyFromEngine, ruleServiceBeginsThroughEngine, ruleModeComparedVerbatim, ruleServiceSuccessOnlyAfterEngine, ruleReplicaDialsReportedAddress},
 	})
 }
 
